@@ -7,6 +7,7 @@ CONSTANTS
   MaxLatch = 0
   FileSteps = FALSE
   QKinds = {}
+  Fix = {}
   KKOps = {}
 POSTCONDITION Accepted
 CHECK_DEADLOCK FALSE
